@@ -220,6 +220,17 @@ func ruleC05(c *Check) {
 					if f.Neg && f.T.Op == "res" && f.T.ContainsOp("keeper.Keeper.GetModuleServiceByServiceName") && f.T.Contains(parseTerm(en.Field("ServiceName"))) {
 						reserved = true
 					}
+					// or through a bool wrapper that returns the lookup's found-result for the name it is given
+					if f.Neg && len(f.T.A) == 1 && f.T.A[0].Eq(parseTerm(en.Field("ServiceName"))) {
+						if g := c.P.FuncNamed(f.T.Op); g != nil && g.Body != nil && len(g.Res) == 1 && typeName(g.Res[0].Type()) == "bool" {
+							if ps := c.P.PathsOf(g); len(ps) == 1 && len(ps[0].Ret) == 1 {
+								r := stripConv(ps[0].Ret[0])
+								if r.Op == "res" && r.ContainsOp("keeper.Keeper.GetModuleServiceByServiceName") && !r.A[0].IsAt("0") && !r.A[0].IsAt("1") {
+									reserved = true
+								}
+							}
+						}
+					}
 				}
 				c.req(reserved, "C05.6", effConstruct(en.Msg, e)+"#module", e.Pos, "dominated by: the service is not reserved by a module")
 			}
